@@ -47,6 +47,7 @@ type tsyncScript struct {
 	NNP         bool     `json:"nnp"`
 	Preload     bool     `json:"preload"`      // the loader first loads the same policy without thread-sync
 	Divergent   bool     `json:"divergent"`    // the first phase thread installs a private filter (policy B) before the load
+	PriorSync   bool     `json:"prior_sync"`   // the loader first loads another policy (B) WITH thread-sync: every thread then has one filter; the load under test follows
 	OuterENOSYS bool     `json:"outer_enosys"` // the whole process already runs under a filter that answers ENOSYS to seccomp(2) (as if the kernel lacked it)
 }
 
@@ -230,6 +231,15 @@ func childTSync(args []string) {
 	}
 	load := func() {
 		rep.LoaderTid = gettid()
+		if sc.PriorSync {
+			if err := seccomp.LoadFilter(seccomp.Filter{NoNewPrivs: sc.NNP, Flag: seccomp.FilterFlagTSync, Policy: *kindPolicy("B")}); err != nil {
+				s := "prior thread-sync load: " + err.Error()
+				rep.Err = &s
+			}
+			seamMu.Lock()
+			rep.Seam = nil
+			seamMu.Unlock()
+		}
 		if sc.Preload {
 			if err := seccomp.LoadFilter(seccomp.Filter{NoNewPrivs: sc.NNP, Flag: 0, Policy: *kindPolicy("A")}); err != nil {
 				s := "preload: " + err.Error()
